@@ -315,6 +315,26 @@ fn main() {
                 ev.insert("calls".into(), json!(c.class_calls));
                 ev.insert("ncalls".into(), json!([c.n.reads, c.n.writes, c.n.seeks, c.n.flushes]));
             }
+            if !panicked && op["op"] == "fresh_read" && live.cf.is_some() {
+                // the stream as stored in the file image itself: reopen a copy of the bytes
+                let bytes = live.buf.snapshot();
+                let name = format!("/{}", dict.str_of(&live.hname));
+                let disk = catch_unwind(AssertUnwindSafe(|| match cfb::CompoundFile::open(std::io::Cursor::new(bytes)) {
+                    Err(e) => res_err(e),
+                    Ok(mut cf) => match cf.open_stream(&name) {
+                        Err(e) => res_err(e),
+                        Ok(mut s) => {
+                            let mut b = Vec::new();
+                            match s.read_to_end(&mut b) {
+                                Ok(_) => ok(rle::to_json(&b)),
+                                Err(e) => res_err(e),
+                            }
+                        }
+                    },
+                }))
+                .unwrap_or_else(|_| json!({"k": "panic"}));
+                ev.insert("disk".into(), disk);
+            }
             if !panicked {
                 let len = live.h.as_ref().map(|s| s.len() as i64).unwrap_or(-1);
                 ev.insert("len".into(), json!(len));
